@@ -107,23 +107,39 @@ Definition scan_order (cids : list bytes) : list bytes :=
   fold_left (fun acc c => insert_cid c acc) (filter (fun c => negb (len c =? 0)) cids) [].
 Definition cid_union (a b : list bytes) : list bytes := fold_left (fun acc c => set_add c acc) b a.
 
-(* handle_quic_packet: sessions are tried in order; the first that recognises the datagram takes it *)
-Fixpoint dispatch_quic (keylog : list secret) (ss : list qsession) (p : packet) (long : bool) (dcid : bytes) (ver : quic_version)
+(* known_cid: the connection ID of the session that the datagram is addressed to *)
+Definition known_cid (s : qsession) (p : packet) (long : bool) (dcid : bytes) : option bytes :=
+  if long then (if mem_bytes dcid (qs_client_cids s) || mem_bytes dcid (qs_server_cids s) then Some dcid else None)
+  else let from_server := ip_eqb (p_src p) (qs_server_ip s) && (p_sport p =? qs_server_port s) in
+       find (fun cid => is_prefix cid (slice_from (p_data p) 1)) (scan_order (if from_server then qs_client_cids s else qs_server_cids s)).
+
+(* first pass: the first session whose socket addresses are the datagram's *)
+Fixpoint dispatch_by_addr (keylog : list secret) (ss : list qsession) (p : packet) (long : bool) (dcid : bytes) (ver : quic_version)
   : result (option (list qsession)) :=
   match ss with
   | [] => Ok None
   | s :: r =>
-      let by_cid :=
-        if long then (if mem_bytes dcid (qs_client_cids s) || mem_bytes dcid (qs_server_cids s) then Some dcid else None)
-        else let from_server := ip_eqb (p_src p) (qs_server_ip s) && (p_sport p =? qs_server_port s) in
-             find (fun cid => is_prefix cid (slice_from (p_data p) 1)) (scan_order (if from_server then qs_client_cids s else qs_server_cids s)) in
-      match by_cid with
+      if matches_session_dgram s p then
+        do s' <- quic_handle_packet C keylog ftable s p (match known_cid s p long dcid with Some c => c | None => dcid end) ver; Ok (Some (s' :: r))
+      else do r' <- dispatch_by_addr keylog r p long dcid ver; Ok (match r' with Some l => Some (s :: l) | None => None end)
+  end.
+
+(* second pass: the first session that knows the connection ID *)
+Fixpoint dispatch_by_cid (keylog : list secret) (ss : list qsession) (p : packet) (long : bool) (dcid : bytes) (ver : quic_version)
+  : result (option (list qsession)) :=
+  match ss with
+  | [] => Ok None
+  | s :: r =>
+      match known_cid s p long dcid with
       | Some cid => do s' <- quic_handle_packet C keylog ftable s p cid ver; Ok (Some (s' :: r))
-      | None =>
-          if matches_session_dgram s p then do s' <- quic_handle_packet C keylog ftable s p dcid ver; Ok (Some (s' :: r))
-          else do r' <- dispatch_quic keylog r p long dcid ver; Ok (match r' with Some l => Some (s :: l) | None => None end)
+      | None => do r' <- dispatch_by_cid keylog r p long dcid ver; Ok (match r' with Some l => Some (s :: l) | None => None end)
       end
   end.
+
+Definition dispatch_quic (keylog : list secret) (ss : list qsession) (p : packet) (long : bool) (dcid : bytes) (ver : quic_version)
+  : result (option (list qsession)) :=
+  do r <- dispatch_by_addr keylog ss p long dcid ver;
+  match r with Some l => Ok (Some l) | None => dispatch_by_cid keylog ss p long dcid ver end.
 
 Definition handle_quic_packet (keylog : list secret) (ss : list qsession) (p : packet) : result (list qsession) :=
   let d := p_data p in
